@@ -266,6 +266,8 @@ class PMUnit(Unit):
             par = cl[1][0]
             while par[0] == "pref":
                 par = par[1]
+            if par[0] == "pwild":
+                return env.child(), "_"
             if par[0] != "pbind":
                 raise TErr("closure parameter pattern")
             sub = env.child()
@@ -334,7 +336,7 @@ class PMUnit(Unit):
                 raise TErr(f"{u.name}::{env.fn.name}: and_also on {p.ty}")
             sub, ln = closure_param(e[3][0], env, pa[0])
             body, ty = closure_body(em, e[3][0][2], sub)
-            if ty not in ("()", "!"):
+            if ty not in ("()", "!", "Result<(), ParseError>"):
                 raise TErr(f"{u.name}::{env.fn.name}: and_also closure of type {ty}")
             t = env.fresh()
             return Code(t, p.ty, p.pre + [f"let {t} ← {ext}.andAlso {paren(p.val)} fun {ln} => do", body])
